@@ -1147,13 +1147,17 @@ read_new(std::istream &in, InterrogateModuleDef *def) {
 
       // Older versions of interrogate were not setting these flags.
       const InterrogateType &itype = get_type(index);
-      FunctionIndex dtor = itype.get_destructor();
-      if (dtor != 0) {
-        update_function(dtor)._flags |= InterrogateFunction::F_destructor;
+      // (Look the functions up rather than assuming that they are there: the
+      // file may name an index that it does not define.)
+      FunctionMap::iterator fi = _function_map.find(itype.get_destructor());
+      if (fi != _function_map.end()) {
+        (*fi).second->_flags |= InterrogateFunction::F_destructor;
       }
       for (int i = 0; i < itype.number_of_constructors(); ++i) {
-        FunctionIndex ctor = itype.get_constructor(i);
-        update_function(ctor)._flags |= InterrogateFunction::F_constructor;
+        fi = _function_map.find(itype.get_constructor(i));
+        if (fi != _function_map.end()) {
+          (*fi).second->_flags |= InterrogateFunction::F_constructor;
+        }
       }
     }
   }
